@@ -5,6 +5,7 @@ import (
 	"go/constant"
 	"go/token"
 	"go/types"
+	"os"
 	"strings"
 
 	"golang.org/x/tools/go/ssa"
@@ -388,7 +389,11 @@ func (st *State) loadTyped(addr V, t types.Type) V {
 		st.assume(app("ismeta", addr.T))
 		st.x.noteAssumption("codec metadata (receiver-reachable memory) is immutable and disjoint from decode targets (ismeta frame)")
 	}
-	return build(t, func(ls leafShape) V {
+	defer func() {
+		// values read from memory are well-formed Go values (memory safety of the surrounding program)
+		// note: applied by the caller below
+	}()
+	return st.withTypeInv(t, build(t, func(ls leafShape) V {
 		a := bvadd(addr.T, bvLit(uint64(ls.Off), 64))
 		switch ls.K {
 		case KBool:
@@ -408,7 +413,21 @@ func (st *State) loadTyped(addr V, t types.Type) V {
 			return vPtr(t, &Prov{Space: "H", Region: reg})
 		}
 		return vBV(st.define("ld", sortBV(ls.W), st.loadN(space, a, ls.W/8)), ls.W, ls.Signed)
-	})
+	}))
+}
+
+// withTypeInv assumes the representation invariants of slices and strings for a
+// value that was read from memory.
+func (st *State) withTypeInv(t types.Type, v V) V {
+	switch u := t.Underlying().(type) {
+	case *types.Slice:
+		st.assume(and(app("bvsle", bvLit(0, 64), v.Fs[1].T), app("bvsle", v.Fs[1].T, v.Fs[2].T), app("bvult", v.Fs[2].T, bvLit(maxLen, 64))))
+	case *types.Basic:
+		if u.Kind() == types.String {
+			st.assume(and(app("bvsle", bvLit(0, 64), v.Fs[1].T), app("bvult", v.Fs[1].T, bvLit(maxLen, 64))))
+		}
+	}
+	return v
 }
 
 func (st *State) storeTyped(addr V, val V, t types.Type) {
@@ -645,7 +664,6 @@ func (x *Exec) runBlock(st *State, b *ssa.BasicBlock, prev *ssa.BasicBlock) []Ou
 	return x.runInstrs(st, b, len(phis))
 }
 
-
 // loopEnv builds the contract environment at a loop head.
 func (x *Exec) loopEnv(st *State, fr *Frame, ld *loopDesc) *CEnv {
 	vars := map[string]V{}
@@ -696,6 +714,11 @@ func (x *Exec) checkLoop(st *State, fr *Frame, ld *loopDesc, spec *LoopSpec, ent
 	}
 	env := x.loopEnv(st, fr, ld)
 	env.prove = true
+	if ri, ok := env.vars["rangeindex"]; ok && ri.K == KBV {
+		// structural invariant of every range-over-slice loop
+		x.oblige(st, x.oname(fr, fmt.Sprintf("loop%d.rangeindex.%s", ld.ordinal, which)), "invariant", x.safetyTags(fr),
+			and(app("bvsle", bvLit(^uint64(0), ri.W), ri.T), app("bvslt", ri.T, bvLit(maxLen, ri.W))), x.posOf(ld.pos), "-1 <= rangeindex < 2^40")
+	}
 	for i, inv := range spec.Invariants {
 		name := x.oname(fr, fmt.Sprintf("loop%d.inv%d.%s", ld.ordinal, i+1, which))
 		t, err := env.evalBool(inv.Expr)
@@ -753,10 +776,12 @@ func (x *Exec) cutLoop(st *State, fr *Frame, ld *loopDesc, spec *LoopSpec, phis 
 			x.harvestClause(henv, inv.Expr)
 		}
 	}
+	if ri, ok := env.vars["rangeindex"]; ok && ri.K == KBV {
+		st.assume(and(app("bvsle", bvLit(^uint64(0), ri.W), ri.T), app("bvslt", ri.T, bvLit(maxLen, ri.W))))
+	}
 	for i, inv := range spec.Invariants {
-		t, err := env.evalBool(inv.Expr)
+		err := st.assumeClause(env, inv.Expr)
 		if err == nil {
-			st.assume(t)
 		} else {
 			x.genFail(x.oname(fr, fmt.Sprintf("loop%d.inv%d.entry", ld.ordinal, i+1)), "invariant", inv.Tags, x.posOf(ld.pos), err.Error())
 		}
@@ -954,6 +979,9 @@ func (x *Exec) runInstrs(st *State, b *ssa.BasicBlock, idx int) []Outcome {
 		case *ssa.Phi:
 			continue
 		case *ssa.DebugRef:
+			if os.Getenv("PLENCVC_DEBUG") == "names" {
+				fmt.Fprintf(os.Stderr, "debugref %v obj=%v isaddr=%v x=%s inenv=%v\n", ins.Expr, ins.Object(), ins.IsAddr, ins.X.Name(), st.env[ins.X].K)
+			}
 			if id, ok := ins.Expr.(interface{ Pos() token.Pos }); ok && id != nil {
 				if obj := ins.Object(); obj != nil && !ins.IsAddr {
 					if v, ok := st.env[ins.X]; ok {
